@@ -162,3 +162,21 @@ pub open spec fn wds_langs(s: Seq<(RewardAddress, (Coin, Option<ScriptWitnessTyp
 pub proof fn lemma_wds_langs_step(s: Seq<(RewardAddress, (Coin, Option<ScriptWitnessType>))>, i: int)
     requires 0 <= i < s.len() ensures wds_langs(s.take(i + 1)) == wds_langs(s.take(i)) + wit_langs(s[i].1.1)
 { assert(s.take(i + 1).drop_last() =~= s.take(i)); }
+pub open spec fn votes_langs(s: Seq<(Voter, VoterVotes)>) -> Set<Language> decreases s.len() {
+    if s.len() == 0 { Set::empty() } else { votes_langs(s.drop_last()) + wit_langs(s.last().1.script_witness) }
+}
+pub proof fn lemma_votes_langs_step(s: Seq<(Voter, VoterVotes)>, i: int)
+    requires 0 <= i < s.len() ensures votes_langs(s.take(i + 1)) == votes_langs(s.take(i)) + wit_langs(s[i].1.script_witness)
+{ assert(s.take(i + 1).drop_last() =~= s.take(i)); }
+pub open spec fn inner_langs(s: Seq<Option<ScriptWitnessType>>) -> Set<Language> decreases s.len() {
+    if s.len() == 0 { Set::empty() } else { inner_langs(s.drop_last()) + wit_langs(s.last()) }
+}
+pub proof fn lemma_inner_langs_step(s: Seq<Option<ScriptWitnessType>>, i: int)
+    requires 0 <= i < s.len() ensures inner_langs(s.take(i + 1)) == inner_langs(s.take(i)) + wit_langs(s[i])
+{ assert(s.take(i + 1).drop_last() =~= s.take(i)); }
+pub open spec fn outer_langs(s: Seq<LinkedHashMap<TransactionInput, Option<ScriptWitnessType>>>) -> Set<Language> decreases s.len() {
+    if s.len() == 0 { Set::empty() } else { outer_langs(s.drop_last()) + inner_langs(s.last().vals()) }
+}
+pub proof fn lemma_outer_langs_step(s: Seq<LinkedHashMap<TransactionInput, Option<ScriptWitnessType>>>, i: int)
+    requires 0 <= i < s.len() ensures outer_langs(s.take(i + 1)) == outer_langs(s.take(i)) + inner_langs(s[i].vals())
+{ assert(s.take(i + 1).drop_last() =~= s.take(i)); }
